@@ -3,6 +3,7 @@ import Afkak.Monitor.C02
 import Afkak.Monitor.C03
 import Afkak.Monitor.C13
 import Afkak.Monitor.C14
+import Afkak.ConsumerInv
 import Driver.Util
 /-!
 # Line-protocol driver for the `Consumer` model (exe `model_consumer`)
@@ -161,6 +162,9 @@ def showOb : Ob → String
   | .commitReq k o => s!"commitReq {k} {o}"
   | .proc blk => s!"proc {showMsgs blk}"
   | .procRet r => s!"procRet {showPRes r}"
+  | .act .stop => "act stop"
+  | .act .commit => "act commit"
+  | .act .shutdown => "act shutdown"
   | .procCancel => "procCancel"
   | .cancelReq k => s!"cancelReq {k}"
   | .startFired r => s!"startFired {showDRes r}"
@@ -183,6 +187,7 @@ def parseOb : List String → Option Ob
   | "commitReq" :: k :: o :: _ => do some (.commitReq (← k.toNat?) (← o.toInt?))
   | ["proc", ms] => (parseMsgs ms).map .proc
   | ["procRet", r] => (parsePRes r).map .procRet
+  | ["act", a] => (parseAct a).map .act
   | ["procCancel"] => some .procCancel
   | ["cancelReq", k] => k.toNat?.map .cancelReq
   | "startFired" :: r => (parseDRes r).map .startFired
@@ -281,10 +286,15 @@ def step (d : DSt) (line : String) : DSt × List String :=
     match evalMon d.cfg name d.impl.reverse with
     | some b => (d, [if b then "ok" else "fail"])
     | none => (d, ["bad-op"])
+  | ["mon-nogap", log] =>
+    match parseMsgs log with
+    | some l => (d, [if Afkak.Monitor.C02.noGapOk l d.impl.reverse then "ok" else "fail"])
+    | none => (d, ["bad-op"])
   | ["mon-model", name] =>
     match evalMon d.cfg name d.st.out.reverse with
     | some b => (d, [if b then "ok" else "fail"])
     | none => (d, ["bad-op"])
+  | ["inv"] => (d, if d.st.crashed then ["ok"] else match Afkak.Consumer.InvTest.check d.cfg d.st with | [] => ["ok"] | l => ["fail " ++ " ".intercalate l])
   | ["dump"] => (d, [reprStr d.st |>.replace "\n" " "])
   | ws =>
     match parseEv ws with
